@@ -213,6 +213,21 @@ func controllingConds(fn *ssa.Function, a *ssa.BasicBlock) []string {
 		if kind == "" || len(atoms) < 2 {
 			atoms = []ssa.Value{iff.Cond}
 		}
+		// a test of a helper's verdict (`if err := decryptBoth(...); err != nil`) stands for the checks the helper makes
+		if len(atoms) == 1 {
+			var ls []string
+			if hc := condCall(iff.Cond); hc != nil {
+				if g := localHelperOf(hc); g != nil && (g.Signature.Recv() == nil || (fn.Signature.Recv() != nil && len(hc.Call.Args) > 0 && hc.Call.Args[0] == ssa.Value(fn.Params[0]))) {
+					for _, lg := range liftFrom(fn, hc, g, false, true, iff, nil, nil, 0) {
+						ls = append(ls, lg.key())
+					}
+				}
+			}
+			if len(ls) > 0 {
+				out = append(out, ls...)
+				continue
+			}
+		}
 		for _, at := range atoms {
 			d := deciderOf(at)
 			if strings.HasPrefix(d, "phi") || d == "value" {
@@ -459,124 +474,149 @@ func checkAbortAttribution(c *Ctx, r *Run) {
 			default:
 				spread = true
 			}
-			key := c.FuncName(fn) + "|abort"
-			// classify the error source
-			src := resolveLoad(errArg)
-			if cc := sentinelInit(src); cc != nil {
-				src = cc // a package-level error variable: classified by the text it is initialised with
-			}
-			var verifyCall *ssa.Call
-			verifyName := ""
-			if dependsOn(src, func(v ssa.Value) bool {
-				cc, ok := v.(*ssa.Call)
-				if !ok {
-					return false
+			// classification of one (error, culprits) pair; `at` is where it is handed to abort - or, when both come out of
+			// a helper of the handler as a pair (`culprit, err := h.verifyQueued(r)`), where the helper returns them
+			var classify func(fn *ssa.Function, at ssa.Instruction, errArg ssa.Value, culprits []ssa.Value, spread bool, culpritArg ssa.Value, depth int)
+			classify = func(fn *ssa.Function, at ssa.Instruction, errArg ssa.Value, culprits []ssa.Value, spread bool, culpritArg ssa.Value, depth int) {
+				if ex, isEx := resolveLoad(errArg).(*ssa.Extract); isEx && len(culprits) == 1 && !spread && depth < 2 {
+					if cx, isCx := resolveLoad(culprits[0]).(*ssa.Extract); isCx && cx.Tuple == ex.Tuple {
+						if hc, isCall := ex.Tuple.(*ssa.Call); isCall {
+							if h := localHelperOf(hc); h != nil {
+								n := 0
+								for _, ret := range returnsOf(h) {
+									if len(ret.Results) <= ex.Index || len(ret.Results) <= cx.Index || isNilConst(ret.Results[ex.Index]) {
+										continue
+									}
+									n++
+									classify(h, ret, ret.Results[ex.Index], []ssa.Value{ret.Results[cx.Index]}, false, ret.Results[cx.Index], depth+1)
+								}
+								if n > 0 {
+									return
+								}
+							}
+						}
+					}
 				}
-				// statically, or through a local function value that is one of the two verifiers on every path
-				cands := calleeCandidates(cc)
-				var names []string
-				for _, f := range cands {
-					if n := canonFnName(f); n == "verifyMessage" || n == "verifyBroadcastMessage" {
-						names = append(names, f.Name())
-					} else {
+				key := c.FuncName(fn) + "|abort"
+				// classify the error source
+				src := resolveLoad(errArg)
+				if cc := sentinelInit(src); cc != nil {
+					src = cc // a package-level error variable: classified by the text it is initialised with
+				}
+				var verifyCall *ssa.Call
+				verifyName := ""
+				if dependsOn(src, func(v ssa.Value) bool {
+					cc, ok := v.(*ssa.Call)
+					if !ok {
 						return false
 					}
-				}
-				if len(names) == 0 {
-					return false
-				}
-				sort.Strings(names)
-				verifyCall, verifyName = cc, strings.Join(names, "/")
-				return true
-			}) && verifyCall != nil {
-				m := normArgs(verifyCall)[1]
-				ok := len(culprits) == 1 && !spread
-				if ok {
-					ok = false
-					// culprit is <m>.From
-					cv := culprits[0]
-					if u, isU := cv.(*ssa.UnOp); isU {
-						if fa, isFA := u.X.(*ssa.FieldAddr); isFA && fa.X == m {
-							if fv := fieldVar(fa.X.Type(), fa.Field); fv != nil && fv.Name() == "From" {
-								ok = true
+					// statically, or through a local function value that is one of the two verifiers on every path
+					cands := calleeCandidates(cc)
+					var names []string
+					for _, f := range cands {
+						if n := canonFnName(f); n == "verifyMessage" || n == "verifyBroadcastMessage" {
+							names = append(names, f.Name())
+						} else {
+							return false
+						}
+					}
+					if len(names) == 0 {
+						return false
+					}
+					sort.Strings(names)
+					verifyCall, verifyName = cc, strings.Join(names, "/")
+					return true
+				}) && verifyCall != nil {
+					m := normArgs(verifyCall)[1]
+					ok := len(culprits) == 1 && !spread
+					if ok {
+						ok = false
+						// culprit is <m>.From
+						cv := culprits[0]
+						if u, isU := cv.(*ssa.UnOp); isU {
+							if fa, isFA := u.X.(*ssa.FieldAddr); isFA && fa.X == m {
+								if fv := fieldVar(fa.X.Type(), fa.Field); fv != nil && fv.Name() == "From" {
+									ok = true
+								}
+							}
+						}
+						// the key under which the queued message was stored (store() files every message under its From)
+						if ek, isE := cv.(*ssa.Extract); isE && ek.Index == 1 {
+							if em, isM := m.(*ssa.Extract); isM && em.Index == 2 && em.Tuple == ek.Tuple {
+								if _, isNext := ek.Tuple.(*ssa.Next); isNext {
+									ok = true
+								}
 							}
 						}
 					}
-					// the key under which the queued message was stored (store() files every message under its From)
-					if ek, isE := cv.(*ssa.Extract); isE && ek.Index == 1 {
-						if em, isM := m.(*ssa.Extract); isM && em.Index == 2 && em.Tuple == ek.Tuple {
-							if _, isNext := ek.Tuple.(*ssa.Next); isNext {
-								ok = true
+					r.Check("OB-B1", key+"|"+verifyName+"-error@"+fn.Name()+siteIdx(at), c.Pos(at.Pos()), ok,
+						"a message that fails decoding/verification is attributed to its own sender (the From of the very message handed to "+verifyName+")",
+						"the culprit of a failed "+verifyName+" is "+culpritDesc(fn, culprits)+", not the From field of the message that was being processed: an honest party can be blamed")
+					return
+				}
+				if cc, ok := src.(*ssa.Call); ok && isCallToPkgFunc(cc, "fmt", "Errorf") {
+					if s, _ := constString(cc.Call.Args[0]); strings.Contains(s, "aborted by other party") {
+						ok := len(culprits) == 1 && strings.Join(paramFields(fn, culprits[0]), "+") == "Message.From"
+						r.Check("OB-B1", key+"|abort-notice", c.Pos(at.Pos()), ok, "a relayed abort notice is attributed to the peer it came from, nothing more", "abort notice names "+culpritDesc(fn, culprits))
+						return
+					}
+					if s, _ := constString(cc.Call.Args[0]); strings.Contains(s, "panic") {
+						r.Check("OB-B1", key+"|recovered-panic", c.Pos(at.Pos()), len(culprits) == 0 && !spread, "a recovered panic names nobody (it may stem from a queued message of another party)", "recovered panic names "+culpritDesc(fn, culprits))
+						return
+					}
+				}
+				if cc, ok := src.(*ssa.Call); ok && isCallToPkgFunc(cc, "errors", "New") {
+					s, _ := constString(cc.Call.Args[0])
+					if strings.Contains(s, "broadcast verification") {
+						r.Check("OB-B1", key+"|hash-mismatch", c.Pos(at.Pos()), len(culprits) == 0 && !spread, "a broadcast-hash mismatch names nobody (the equivocator cannot be identified locally)", "hash mismatch names "+culpritDesc(fn, culprits))
+						return
+					}
+					if strings.Contains(s, "aborted by user") {
+						r.Hold("OB-B1", key+"|user-stop", c.Pos(at.Pos()), "Stop() reports this party as the origin")
+						return
+					}
+				}
+				if isNilConst(errArg) {
+					r.Check("OB-B1", key+"|success", c.Pos(at.Pos()), len(culprits) == 0 && !spread, "the error-free transition names nobody", "abort(nil) with culprits")
+					return
+				}
+				// R.Err / R.Culprits of a round.Abort
+				if strings.Contains(path(errArg), ".Err") {
+					okc := spread && strings.Contains(path(culpritArg), ".Culprits")
+					r.Check("OB-B1", key+"|protocol-abort", c.Pos(at.Pos()), okc, "protocol-computed blame is passed on unchanged (Abort.Culprits)", "culprits of the Abort round are replaced by "+path(culpritArg))
+					return
+				}
+				// Finalize error
+				if ex, ok := src.(*ssa.Extract); ok {
+					if fc, ok := ex.Tuple.(*ssa.Call); ok && fc.Call.IsInvoke() && fc.Call.Method.Name() == "Finalize" {
+						okc := false
+						if len(culprits) == 1 {
+							if sc, ok := culprits[0].(*ssa.Call); ok && sc.Call.IsInvoke() && sc.Call.Method.Name() == "SelfID" {
+								okc = true
 							}
 						}
+						r.Check("OB-B1", key+"|own-finalize-error", c.Pos(at.Pos()), okc, "a local failure (own Finalize error) is reported as this party's own, never a peer's", "own Finalize error names "+culpritDesc(fn, culprits))
+						return
 					}
 				}
-				r.Check("OB-B1", key+"|"+verifyName+"-error@"+fn.Name()+siteIdx(call), c.Pos(call.Pos()), ok,
-					"a message that fails decoding/verification is attributed to its own sender (the From of the very message handed to "+verifyName+")",
-					"the culprit of a failed "+verifyName+" is "+culpritDesc(fn, culprits)+", not the From field of the message that was being processed: an honest party can be blamed")
-				return
-			}
-			if cc, ok := src.(*ssa.Call); ok && isCallToPkgFunc(cc, "fmt", "Errorf") {
-				if s, _ := constString(cc.Call.Args[0]); strings.Contains(s, "aborted by other party") {
-					ok := len(culprits) == 1 && strings.Join(paramFields(fn, culprits[0]), "+") == "Message.From"
-					r.Check("OB-B1", key+"|abort-notice", c.Pos(call.Pos()), ok, "a relayed abort notice is attributed to the peer it came from, nothing more", "abort notice names "+culpritDesc(fn, culprits))
-					return
-				}
-				if s, _ := constString(cc.Call.Args[0]); strings.Contains(s, "panic") {
-					r.Check("OB-B1", key+"|recovered-panic", c.Pos(call.Pos()), len(culprits) == 0 && !spread, "a recovered panic names nobody (it may stem from a queued message of another party)", "recovered panic names "+culpritDesc(fn, culprits))
-					return
-				}
-			}
-			if cc, ok := src.(*ssa.Call); ok && isCallToPkgFunc(cc, "errors", "New") {
-				s, _ := constString(cc.Call.Args[0])
-				if strings.Contains(s, "broadcast verification") {
-					r.Check("OB-B1", key+"|hash-mismatch", c.Pos(call.Pos()), len(culprits) == 0 && !spread, "a broadcast-hash mismatch names nobody (the equivocator cannot be identified locally)", "hash mismatch names "+culpritDesc(fn, culprits))
-					return
-				}
-				if strings.Contains(s, "aborted by user") {
-					r.Hold("OB-B1", key+"|user-stop", c.Pos(call.Pos()), "Stop() reports this party as the origin")
-					return
-				}
-			}
-			if isNilConst(errArg) {
-				r.Check("OB-B1", key+"|success", c.Pos(call.Pos()), len(culprits) == 0 && !spread, "the error-free transition names nobody", "abort(nil) with culprits")
-				return
-			}
-			// R.Err / R.Culprits of a round.Abort
-			if strings.Contains(path(errArg), ".Err") {
-				okc := spread && strings.Contains(path(call.Call.Args[2]), ".Culprits")
-				r.Check("OB-B1", key+"|protocol-abort", c.Pos(call.Pos()), okc, "protocol-computed blame is passed on unchanged (Abort.Culprits)", "culprits of the Abort round are replaced by "+path(call.Call.Args[2]))
-				return
-			}
-			// Finalize error
-			if ex, ok := src.(*ssa.Extract); ok {
-				if fc, ok := ex.Tuple.(*ssa.Call); ok && fc.Call.IsInvoke() && fc.Call.Method.Name() == "Finalize" {
-					okc := false
-					if len(culprits) == 1 {
-						if sc, ok := culprits[0].(*ssa.Call); ok && sc.Call.IsInvoke() && sc.Call.Method.Name() == "SelfID" {
-							okc = true
+				// an error value built from the received message itself by a helper of the package (a typed "peer aborted"
+				// error): the abort notice of a peer, attributed to that peer
+				if cc, ok := src.(*ssa.Call); ok && localHelperOf(cc) != nil && len(culprits) == 1 && !spread {
+					fromMsg := false
+					for _, a := range cc.Call.Args {
+						if ls := paramFields(fn, a); len(ls) > 0 && strings.HasPrefix(ls[0], "Message") {
+							fromMsg = true
 						}
 					}
-					r.Check("OB-B1", key+"|own-finalize-error", c.Pos(call.Pos()), okc, "a local failure (own Finalize error) is reported as this party's own, never a peer's", "own Finalize error names "+culpritDesc(fn, culprits))
-					return
-				}
-			}
-			// an error value built from the received message itself by a helper of the package (a typed "peer aborted"
-			// error): the abort notice of a peer, attributed to that peer
-			if cc, ok := src.(*ssa.Call); ok && localHelperOf(cc) != nil && len(culprits) == 1 && !spread {
-				fromMsg := false
-				for _, a := range cc.Call.Args {
-					if ls := paramFields(fn, a); len(ls) > 0 && strings.HasPrefix(ls[0], "Message") {
-						fromMsg = true
+					if fromMsg {
+						ok := strings.Join(paramFields(fn, culprits[0]), "+") == "Message.From"
+						r.Check("OB-B1", key+"|abort-notice", c.Pos(at.Pos()), ok, "a relayed abort notice is attributed to the peer it came from, nothing more", "abort notice names "+culpritDesc(fn, culprits))
+						return
 					}
 				}
-				if fromMsg {
-					ok := strings.Join(paramFields(fn, culprits[0]), "+") == "Message.From"
-					r.Check("OB-B1", key+"|abort-notice", c.Pos(call.Pos()), ok, "a relayed abort notice is attributed to the peer it came from, nothing more", "abort notice names "+culpritDesc(fn, culprits))
-					return
-				}
+				r.Fail("OB-B1", key+"|unclassified@"+fn.Name()+siteIdx(at), c.Pos(at.Pos()), "every abort site has a known attribution rule", "UNDECIDED: abort with error "+path(errArg)+" and culprits "+culpritDesc(fn, culprits))
 			}
-			r.Fail("OB-B1", key+"|unclassified@"+fn.Name()+siteIdx(call), c.Pos(call.Pos()), "every abort site has a known attribution rule", "UNDECIDED: abort with error "+path(errArg)+" and culprits "+culpritDesc(fn, culprits))
+			classify(fn, call, errArg, culprits, spread, call.Call.Args[2], 0)
 		})
 	}
 }
